@@ -827,6 +827,12 @@ class Evaluator:
             m = self.resolve_elem_attr(base, attr, st)
             if m is not None:
                 return m
+            if attr == 'shape':
+                # an opaque 2-D array (a memory-mapped part of a recording): (n_rows, n_cols), both non-negative
+                nr = z3.Function('n_rows', Elem, z3.IntSort())(base.t)
+                nc = z3.Function('n_cols', Elem, z3.IntSort())(base.t)
+                st.assume(z3.And(nr >= 0, nc >= 0))
+                return VTuple([VInt(nr), VInt(nc)])
             if attr in ('name', 'stem', 'parent', 'suffix', '__class__', '__name__', '__qualname__'):
                 f_ = z3.Function('path_' + attr, Elem, Elem)
                 return VElem(f_(base.t))
